@@ -42,14 +42,18 @@ type c04in struct {
 }
 
 func TestC04(t *testing.T) {
-	simkit.Main(t, "C04", components, c04prop)
+	simkit.Main(t, "C04", components, func(r *simkit.Run) { c04core(r, 1, false) })
 }
 
-func c04prop(r *simkit.Run) {
+// c04core drives the connection limiter; C14 reuses it with at least two
+// sources and fine scheduling forced (the porcupine model is partitioned by
+// source, i.e. each source's projected history must be explained by its own
+// counter alone).
+func c04core(r *simkit.Run, minSources int, forceFine bool) {
 	rt := r.T
-	nsrc := rapid.IntRange(1, 4).Draw(rt, "sources")
+	nsrc := rapid.IntRange(minSources, 4).Draw(rt, "sources")
 	limit := rapid.IntRange(0, 5).Draw(rt, "limit")
-	fine := rapid.Bool().Draw(rt, "fine")
+	fine := forceFine || rapid.Bool().Draw(rt, "fine")
 	nops := rapid.IntRange(1, 40).Draw(rt, "ops")
 	maxReq := 24
 
@@ -97,7 +101,7 @@ func c04prop(r *simkit.Run) {
 	arrive := func(src int) *c04req {
 		q := &c04req{id: len(reqs), src: src, rec: simkit.NewRecorder()}
 		reqs = append(reqs, q)
-		req := newRequest(q, fmt.Sprintf("s%d", src))
+		req := newRequest(q, srcName(src))
 		q.task = sim.Spawn(fmt.Sprintf("req%d(s%d)", q.id, src), func() {
 			q.invoke = sim.Seq
 			defer func() { q.done = true; q.doneSeq = sim.Seq; q.status = q.rec.Status }()
